@@ -126,7 +126,7 @@ class E3Check(Check):
         "compute_main_ape", "compute_merge_results",
         "compute_umeyama_contiguous", "compute_lie", "compute_plot",
         "time_range_absolute_bounds", "compute_plot_optional_args",
-        "built_from_all_three",
+        "built_from_all_three", "align_checked_against_independent_umeyama",
     )
 
     def setup_worker(self):
